@@ -381,8 +381,9 @@ UNITS['U27k'] = dict(
     kind='kani', crate='kani/U27', timeout_s=600, mem_gb=8,
     title='row count of the NULL column that stands in for a column missing from a partition: compile_expr choice per filter kind (slice) x query_plan::prepare decoding of source_type (slice) x Filter::apply_filter (complete)',
     harnesses=[dict(name='proofs::missing_column_rows_match_filter', clause='per filter kind: real columns go through Filter / NullableFilter / Select / Empty and the stand-in NULL column takes its length from NonZeroU8ElementCount / NonNullElementCount / InputLength / 0 / partition length respectively', fn='compile_expr[slice] / prepare[slice] / Filter::apply_filter'),
+               dict(name='proofs::order_by_path_for_every_key_type', unwind=4, clause='for every key type, LIMIT and partition length: top_n (only for one key and LIMIT < len/2, over a key whose type has a fused-NULL representation) or a stable sort_by; never a panic', fn='NormalFormQuery::run[slice: top-n or sort] + EncodingType::nullable_fused'),
                dict(name='proofs::vx_canary', expect_fail=True)],
-    assumptions=['A-astbuilder: the generated planner methods (null_vec, null_vec_like, filter, nullable_filter, select, empty) build the node named after them from their arguments in order; recording stand-ins',
+    assumptions=['A-astbuilder: the generated planner methods (null_vec, null_vec_like, filter, nullable_filter, select, empty, fuse_nulls, top_n, indices, sort_by) build the node named after them from their arguments in order; recording stand-ins',
                  'the operators behind the nodes are U19 (NullVecLike count slice, Filter*, NullableFilter*) and U13k (NULL column window)'],
     not_covered=['the other call sites of null_vec_like (group-by placeholders)', 'the ASTBuilder proc-macro'])
 
@@ -501,7 +502,7 @@ PROPS = {
                 level_note='grouping-key construction, hash-map grouping and the final pass are not covered',
                 technique='contract-based deductive verification (Verus + Kani complete harnesses) of extracted functions',
                 assumptions=[], not_covered=['hashmap_grouping*', 'try_bitpacking (float log2)']),
-    'C05': dict(level='proof', units=['U10', 'U11', 'U12k', 'U13k', 'U26', 'U29', 'U33', 'U35k'],
+    'C05': dict(level='proof', units=['U10', 'U11', 'U12k', 'U13k', 'U26', 'U29', 'U33', 'U35k', 'U27k'],
                 level_text='Verus proof of merge (sorted, stable, limit) and of the sort kernels against assumed contracts of the std sorts (stable where stability is asked for, NULLs last / first when descending), complete Kani proofs of integer/float comparators and LIMIT/OFFSET window arithmetic; string comparators bounded',
                 level_note='the std sorts themselves are assumed (A-std-sort); the top-n driver and the planner choice between sort and top-n (and which sorts it requests as stable) are not covered',
                 technique='contract-based deductive verification (Verus + Kani) of extracted functions',
